@@ -234,33 +234,41 @@ def rule_defn(which):
         COUNTS = {"indegree", "outdegree", "degree", "size", "order", "contiguous_order", "degree_sequence", "indegree_sequence",
                   "outdegree_sequence", "semidegree_sequence", "max_degree", "max_indegree", "max_outdegree", "min_degree",
                   "min_indegree", "min_outdegree", "vertices", "is_sink", "is_source", "is_isolated", "is_pendant", "sinks", "sources"}
+        OUT_COUNTS = {"outdegree", "size", "order", "contiguous_order", "outdegree_sequence", "max_outdegree", "min_outdegree",
+                      "vertices", "is_sink", "sinks"}
         for trait, name in (("graaf::op::is_tournament::IsTournament", "is_tournament"),
                             ("graaf::op::is_semicomplete::IsSemicomplete", "is_semicomplete"),
                             ("graaf::op::is_symmetric::IsSymmetric", "is_symmetric"),
-                            ("graaf::op::is_oriented::IsOriented", "is_oriented")):
+                            ("graaf::op::is_oriented::IsOriented", "is_oriented"),
+                            ("graaf::op::is_regular::IsRegular", "is_regular"),
+                            ("graaf::op::is_balanced::IsBalanced", "is_balanced")):
             for p in impl_fns(crate, trait, name):
                 reads_adj = False
                 counts = []
+                allowed = OUT_COUNTS if name in ("is_regular", "is_balanced") else COUNTS
                 for bp in family_bodies(crate, p):
                     an = crate.an(bp)
                     for ev in an.events:
                         if ev["k"] == "call" and ev["key"]:
                             k = ev["key"]
                             if k.startswith("graaf::op::") or k.startswith("graaf::repr::") or k.startswith("graaf::gen::"):
-                                if k.split("::")[-1] in COUNTS:
+                                if k.split("::")[-1] in allowed:
                                     counts.append(ev)
                                 else:
                                     reads_adj = True
-                            elif k.startswith("alloc::collections::btree") or k.startswith("slice::") or k.startswith("alloc::vec::Vec::") \
-                                    or k.startswith("core::cmp::PartialEq") or k.startswith("rawptr::"):
-                                if not k.endswith("::len") and not k.endswith("::is_empty"):
-                                    reads_adj = True
+                            elif _reads_adjacency_content(ev):
+                                reads_adj = True
                     if _touches_fields(an, ("A1.arcs#", "A1.blocks#", "A1.arcs*", "A1.arcs.")):
                         reads_adj = True
                 if counts and not reads_adj:
                     o.instances += 1
-                    o.check(False, prog.pretty[p], name + "-from-counts", "%s is decided from order / size / degree counts alone; digraphs with "
-                            "equal counts can differ in it (the adjacency of no pair of vertices is ever read)" % name, counts[0]["span"])
+                    if name in ("is_regular", "is_balanced"):
+                        o.check(False, prog.pretty[p], name + "-from-counts", "%s is decided from order / size / outdegrees (row lengths) alone: "
+                                "no indegree and no head of any arc is ever read, but digraphs with equal outdegrees can differ in their "
+                                "indegrees" % name, counts[0]["span"])
+                    else:
+                        o.check(False, prog.pretty[p], name + "-from-counts", "%s is decided from order / size / degree counts alone; digraphs with "
+                                "equal counts can differ in it (the adjacency of no pair of vertices is ever read)" % name, counts[0]["span"])
         closure_defs(crate, o, PRED_CLOSURES)
         # is_subdigraph: V(self) must be tested for membership in V(d)
         for p in impl_fns(crate, "graaf::op::is_subdigraph::IsSubdigraph", "is_subdigraph"):
@@ -777,3 +785,31 @@ def _pair_stream_over_all(crate, pan, d):
     if cm is None:
         return False
     return hi in cm.tr_all(N) or any(cv == hi and (pv == N) for pv, cv in cm.valmap)
+
+
+def _reads_adjacency_content(ev):
+    """a std call that looks at *which* heads a vertex has (not merely how many, and not merely at the table of rows)"""
+    k = ev["key"]
+    last = k.split("::")[-1]
+    if last in ("len", "is_empty", "new", "with_capacity", "capacity"):
+        return False
+    targs = (ev["fn"] or {}).get("targs", []) if ev.get("fn") else []
+
+    def is_row(t):
+        return t.get("k") == "adt" and t.get("name") in ("BTreeSet", "BTreeMap")
+    if k.startswith("alloc::collections::btree::set::BTreeSet::"):
+        return True
+    if k.startswith("alloc::collections::btree::map::BTreeMap::"):
+        # the map of rows of an AdjacencyMap is a table of rows; a weight map of a row is adjacency content
+        return not (len(targs) >= 2 and is_row(targs[1]))
+    if k.startswith("slice::") or k.startswith("alloc::vec::Vec::") or k.startswith("core::ops::index::Index"):
+        # the vector of rows is a table; the words of a bit matrix / an arc list are content
+        elem = targs[0] if targs else {}
+        if elem.get("k") == "adt" and elem.get("name") == "Vec" and elem.get("args"):
+            elem = elem["args"][0]
+        if elem.get("k") == "slice":
+            elem = elem.get("elem", {})
+        return not is_row(elem)
+    if k.startswith("core::cmp::PartialEq") or k.startswith("rawptr::") or k.startswith("core::ptr::"):
+        return True
+    return False
